@@ -31,10 +31,12 @@ def gen(pid, tier, rng, n=None, poison=None):
                              depth=rng.choice([0, 1, 1, 2]))
         pre = histgen.random_pre(rng, b, PRE[pid]) if rng.random() < 0.6 else []
         nt = rng.randint(*NTHREADS[pid])
-        hist = histgen.gen_history(rng, u, nthreads=nt, length=rng.randint(4, 14), profile=PROFILES[pid], pre=pre)
+        # C10 / C11: some threads run their whole history inside a destructor during an unrelated unwind
+        unw = [t for t in range(nt) if pid in ("C10", "C11") and rng.random() < 0.12]
+        hist = histgen.gen_history(rng, u, nthreads=nt, length=rng.randint(4, 14), profile=PROFILES[pid], pre=pre, unw=unw)
         if not hist:
             hist = [(0, ("get",))]
-        scens.append(b.scen(hist=hist, pre=pre, meta={"roots": [b.desc[c] for c in u.roots], "nt": nt}))
+        scens.append(b.scen(hist=hist, pre=pre, unw=unw, meta={"roots": [b.desc[c] for c in u.roots], "nt": nt}))
     if pid in BPIDS:
         bs = bprop.gen(pid, tier, rng, n=BCOUNT[tier] if full else max(1, n // 3))
         for s in bs:
@@ -52,7 +54,7 @@ def coq_expr(pid, s, r):
 def classify(s, r):
     if s.sched:
         return ["level=B"] + bprop.classify(s, r)
-    out = ["level=A", f"threads={s.meta['nt']}", f"len={len(s.hist)}"]
+    out = ["level=A", "unwinding-context=" + str(bool(s.unw)), f"threads={s.meta['nt']}", f"len={len(s.hist)}"]
     codes = {}
     for o in r["obs"]:
         c = o.split("(", 1)[1].split(")", 1)[0].split()[0]
